@@ -320,14 +320,36 @@ Proof.
   destruct (H n0 (or_introl eq_refl)) as [rows ->]. reflexivity.
 Qed.
 
-Theorem select_correct D : NoDup D -> forall p g vs rows,
-  slice_free L p = true ->
+Lemma In_firstn {A} n (l : list A) x : In x (firstn n l) -> In x l.
+Proof.
+  revert l; induction n as [|n IH]; intros [|y l]; simpl; try tauto. intros [H|H]; auto.
+Qed.
+Lemma In_skipn {A} n (l : list A) x : In x (skipn n l) -> In x l.
+Proof.
+  revert l; induction n as [|n IH]; intros [|y l]; simpl; try tauto. intros H; auto.
+Qed.
+Lemma In_slice {A} start len (l : list A) x : In x (slice start len l) -> In x l.
+Proof.
+  unfold slice. destruct len as [n|]; intros H.
+  - apply In_firstn in H. eapply In_skipn; eauto.
+  - eapply In_skipn; eauto.
+Qed.
+Lemma dedupb_perm {A} (eqb : A -> A -> bool) (eqb_eq : forall x y, eqb x y = true <-> x = y) l l' :
+  Permutation l l' -> Permutation (dedupb eqb l) (dedupb eqb l').
+Proof.
+  intros H. apply NoDup_Permutation; try apply (dedupb_NoDup _ eqb_eq).
+  intros x. rewrite !(dedupb_In _ eqb_eq). split; apply Permutation_in; [|apply Permutation_sym]; exact H.
+Qed.
+
+(* the engine returns an admissible answer (relational form: every supported pattern,
+   including OFFSET / LIMIT anywhere) *)
+Theorem select_answers D : NoDup D -> forall p g vs rows,
   select (ds_qm D) (ds_names D) p [g] None = Ok vs rows ->
-  Permutation (map bv rows) (spec L D p g) /\ Forall (row_inv vs) rows.
+  answers L D p g (map bv rows) /\ Forall (row_inv vs) rows.
 Proof.
   intros HD.
   induction p as [ps|e p IHp|p1 IHp1 p2 IHp2|name p IHp|p IHp v e|p IHp crit|p IHp pvs|p IHp
-                 |p IHp start len|k]; intros g vs0 rows0 SF; simpl in SF |- *.
+                 |p IHp start len|k]; intros g vs0 rows0; simpl.
   - (* Bgp *)
     unfold bgp. intros E. injection E as <- <-.
     rewrite (bgp_rec_ext _ (qmG (graph_of D g)) [g] (fun m => ds_qm_single D m g)).
@@ -342,16 +364,17 @@ Proof.
       exfalso. apply Hk. reflexivity.
   - (* Filter *)
     destruct (select _ _ p [g] None) as [vs rows|] eqn:E; [|discriminate].
-    intros H; injection H as <- <-. destruct (IHp _ _ _ SF E) as [P F]. split.
-    + rewrite (map_filter_comm bv (filter_keep L e)). apply Permutation_filter. exact P.
+    intros H; injection H as <- <-. destruct (IHp _ _ _ E) as [P F]. split.
+    + exists (map bv rows). split; [exact P|].
+      rewrite (map_filter_comm bv (filter_keep L e)). apply Permutation_refl.
     + rewrite Forall_forall in *. intros r Hin. apply filter_In in Hin as [Hin _]. auto.
   - (* Union *)
-    apply andb_true_iff in SF as [SF1 SF2].
     destruct (select _ _ p1 [g] None) as [lv li|] eqn:E1; [|discriminate].
     destruct (select _ _ p2 [g] None) as [rv ri|] eqn:E2; [|discriminate].
     intros H; injection H as <- <-.
-    destruct (IHp1 _ _ _ SF1 E1) as [P1 F1], (IHp2 _ _ _ SF2 E2) as [P2 F2]. split.
-    + rewrite map_app. apply Permutation_app; assumption.
+    destruct (IHp1 _ _ _ E1) as [P1 F1], (IHp2 _ _ _ E2) as [P2 F2]. split.
+    + exists (map bv li), (map bv ri). split; [exact P1|]. split; [exact P2|].
+      rewrite map_app. apply Permutation_refl.
     + apply Forall_app. split; eapply Forall_impl; try eassumption; intros r; apply row_inv_mono;
         intros k Hk; rewrite in_app_iff.
       * left. exact Hk.
@@ -361,30 +384,34 @@ Proof.
     destruct name as [i|v]; simpl.
     + unfold only_if_named.
       destruct (select _ _ p [Some (Iri i)] None) as [vs rows|] eqn:E; [|discriminate].
-      rewrite names_mem. destruct (IHp _ _ _ SF E) as [P F].
+      rewrite names_mem. destruct (IHp _ _ _ E) as [P F].
       destruct (memb teq (Iri i) (graph_names_set D)); intros H; injection H as <- <-.
       * auto.
-      * split; constructor.
+      * split; [reflexivity | constructor].
     + destruct (select _ _ p [] None) as [vs1 rows1|] eqn:E0; [|discriminate].
       pose proof (ds_names_perm D) as Hperm.
       destruct (ds_names D) as [|n names] eqn:EN.
-      * intros H; injection H as <- <-. apply Permutation_nil in Hperm. rewrite Hperm.
-        split; constructor.
+      * intros H; injection H as <- <-. apply Permutation_nil in Hperm. split; [|constructor].
+        exists (fun _ => []). rewrite Hperm. split; [intros n []|]. constructor.
       * rewrite <- EN in *. intros H. apply graph_rec_ok in H as [A [-> ->]].
+        set (f := fun n => map bv (res_rows (select (ds_qm D) (ds_names D) p [Some n] None))).
         assert (Hn : forall n', In n' (ds_names D) -> exists rowsn,
                    select (ds_qm D) (ds_names D) p [Some n'] None = Ok (out_vars L p) rowsn).
         { intros n' Hin. destruct (A n' Hin) as [vsn [rowsn En]]. exists rowsn.
           rewrite <- (select_vars _ _ _ _ _ _ En). exact En. }
         split.
-        -- rewrite flat_map_map_comm.
-           eapply perm_trans; [|apply Permutation_flat_map_l, Hperm].
-           apply Permutation_flat_map_f. intros n' Hin. destruct (Hn n' Hin) as [rowsn En].
-           rewrite En. simpl. rewrite map_bv_join. apply Permutation_filter_map.
-           apply (IHp _ _ _ SF En).
+        -- exists f. split.
+           ++ intros n' Hin. apply (Permutation_in _ (Permutation_sym Hperm)) in Hin.
+              destruct (Hn n' Hin) as [rowsn En]. unfold f. rewrite En. simpl.
+              apply (IHp _ _ _ En).
+           ++ rewrite flat_map_map_comm.
+              eapply perm_trans; [|apply Permutation_flat_map_l, Hperm].
+              apply Permutation_flat_map_f. intros n' Hin. unfold f.
+              rewrite map_bv_join. apply Permutation_refl.
         -- apply Forall_forall. intros r Hin. apply in_flat_map in Hin as [n' [Hn' Hin]].
            destruct (Hn n' Hn') as [rowsn En]. rewrite En in Hin. simpl in Hin.
            apply filter_map_In in Hin as [r0 [Hr0 J]].
-           destruct (IHp _ _ _ SF En) as [_ F]. rewrite Forall_forall in F.
+           destruct (IHp _ _ _ En) as [_ F]. rewrite Forall_forall in F.
            destruct (F r0 Hr0) as [S K].
            rewrite (first_vars (select (ds_qm D) (ds_names D) p) v (ds_names D) (out_vars L p));
              [|rewrite EN; discriminate | exact Hn].
@@ -397,9 +424,10 @@ Proof.
   - (* Extend *)
     destruct (select _ _ p [g] None) as [vs rows|] eqn:E; [|discriminate].
     destruct (memb str_eqb v vs); [discriminate|].
-    intros H; injection H as <- <-. destruct (IHp _ _ _ SF E) as [P F]. split.
-    + rewrite map_map. rewrite (map_ext _ (fun b => extend_mu L v e (bv b)) (bv_extend_row v e)).
-      rewrite <- map_map. apply Permutation_map. exact P.
+    intros H; injection H as <- <-. destruct (IHp _ _ _ E) as [P F]. split.
+    + exists (map bv rows). split; [exact P|].
+      rewrite !map_map. rewrite (map_ext _ (fun b => extend_mu L v e (bv b)) (bv_extend_row v e)).
+      apply Permutation_refl.
     + rewrite Forall_forall in *. intros r Hin. apply in_map_iff in Hin as [r0 [<- Hin]].
       destruct (F r0 Hin) as [S K]. unfold row_inv. rewrite bv_extend_row. unfold extend_mu.
       destruct (eval_expr L e (bv r0)).
@@ -408,14 +436,13 @@ Proof.
       * split; [exact S|]. intros k Hk. rewrite in_app_iff. left. auto.
   - (* OrderBy *)
     destruct (select _ _ p [g] None) as [vs rows|] eqn:E; [|discriminate].
-    intros H; injection H as <- <-. destruct (IHp _ _ _ SF E) as [P F]. split.
-    + eapply perm_trans; [apply Permutation_map, sorter_perm | exact P].
+    intros H; injection H as <- <-. destruct (IHp _ _ _ E) as [P F]. split.
+    + exists (map bv rows). split; [exact P | apply Permutation_map, sorter_perm].
     + eapply Permutation_Forall; [apply Permutation_sym, sorter_perm | exact F].
   - (* Project *)
     destruct (select _ _ p [g] None) as [vs rows|] eqn:E; [|discriminate].
-    intros H; injection H as <- <-. destruct (IHp _ _ _ SF E) as [P F]. split.
-    + rewrite map_map. change (fun x => bv (restrict_row pvs x)) with (fun x => restrict pvs (bv x)).
-      rewrite <- map_map. apply Permutation_map. exact P.
+    intros H; injection H as <- <-. destruct (IHp _ _ _ E) as [P F]. split.
+    + exists (map bv rows). split; [exact P|]. rewrite !map_map. apply Permutation_refl.
     + rewrite Forall_forall in *. intros r Hin. apply in_map_iff in Hin as [r0 [<- Hin]].
       destruct (F r0 Hin) as [S K]. split; simpl.
       * apply sorted_restrict. exact S.
@@ -423,12 +450,62 @@ Proof.
         intros _. apply (memb_In _ str_eqb_eq). exact M.
   - (* Distinct *)
     destruct (select _ _ p [g] None) as [vs rows|] eqn:E; [|discriminate].
-    intros H; injection H as <- <-. destruct (IHp _ _ _ SF E) as [P F]. split.
-    + apply distinct_correct; assumption.
+    intros H; injection H as <- <-. destruct (IHp _ _ _ E) as [P F]. split.
+    + exists (map bv rows). split; [exact P|]. apply distinct_correct; [assumption | apply Permutation_refl].
     + rewrite Forall_forall in *. intros r Hin.
       destruct (dedup_rows_spec vs rows []) as [A _]. apply A in Hin as [Hin _]. auto.
+  - (* Slice *)
+    destruct (select _ _ p [g] None) as [vs rows|] eqn:E; [|discriminate].
+    intros H; injection H as <- <-. destruct (IHp _ _ _ E) as [P F]. split.
+    + exists (map bv rows). split; [exact P|]. unfold slice.
+      destruct len; rewrite ?skipn_map, ?firstn_map; reflexivity.
+    + rewrite Forall_forall in *. intros r Hin. apply In_slice in Hin. auto.
   - discriminate.
+Qed.
+
+(* without OFFSET / LIMIT the admissible answers are exactly the orderings of [spec] *)
+Theorem answers_spec D p : forall g rows,
+  slice_free L p = true -> answers L D p g rows -> Permutation rows (spec L D p g).
+Proof.
+  induction p as [ps|e p IHp|p1 IHp1 p2 IHp2|name p IHp|p IHp v e|p IHp crit|p IHp pvs|p IHp
+                 |p IHp start len|k]; intros g rows SF; simpl in SF |- *.
+  - auto.
+  - intros [l [A P]]. eapply perm_trans; [exact P|]. apply Permutation_filter. auto.
+  - apply andb_true_iff in SF as [SF1 SF2]. intros [l1 [l2 [A1 [A2 P]]]].
+    eapply perm_trans; [exact P|]. apply Permutation_app; auto.
+  - destruct name as [i|v].
+    + destruct (memb teq (Iri i) (graph_names_set D)); [auto | intros ->; constructor].
+    + intros [f [A P]]. eapply perm_trans; [exact P|]. apply Permutation_flat_map_f.
+      intros n Hin. apply Permutation_filter_map. auto.
+  - intros [l [A P]]. eapply perm_trans; [exact P|]. apply Permutation_map. auto.
+  - intros [l [A P]]. eapply perm_trans; [exact P|]. auto.
+  - intros [l [A P]]. eapply perm_trans; [exact P|]. apply Permutation_map. auto.
+  - intros [l [A P]]. eapply perm_trans; [exact P|]. apply (dedupb_perm _ amap_eqb_eq). auto.
   - discriminate.
+  - intros [].
+Qed.
+(* [spec] itself is an admissible answer of every supported pattern *)
+Theorem spec_answers D p : forall g, supported L p = true -> answers L D p g (spec L D p g).
+Proof.
+  induction p as [ps|e p IHp|p1 IHp1 p2 IHp2|name p IHp|p IHp v e|p IHp crit|p IHp pvs|p IHp
+                 |p IHp start len|k]; intros g S; simpl in S |- *;
+    try (eexists; split; [apply IHp; exact S | try apply Permutation_refl; reflexivity]).
+  - apply Permutation_refl.
+  - apply andb_true_iff in S as [S1 S2]. eexists; eexists. split; [apply IHp1; exact S1|].
+    split; [apply IHp2; exact S2 | apply Permutation_refl].
+  - destruct name as [i|v].
+    + destruct (memb teq (Iri i) (graph_names_set D)); [apply IHp; exact S | reflexivity].
+    + exists (fun n => spec L D p (Some n)). split; [intros; apply IHp; exact S | apply Permutation_refl].
+  - discriminate.
+Qed.
+
+Theorem select_correct D : NoDup D -> forall p g vs rows,
+  slice_free L p = true ->
+  select (ds_qm D) (ds_names D) p [g] None = Ok vs rows ->
+  Permutation (map bv rows) (spec L D p g) /\ Forall (row_inv vs) rows.
+Proof.
+  intros HD p g vs rows SF E. destruct (select_answers D HD p g vs rows E) as [A F].
+  split; [apply answers_spec; assumption | exact F].
 Qed.
 End WithLib.
 
@@ -453,6 +530,29 @@ Proof.
   destruct (select_correct L sorter_perm D HD _ _ _ _ SF E) as [P _].
   unfold rows_of. change (row_key vs0) with (fun b => mu_row vs0 (bv b)).
   rewrite <- map_map. apply Permutation_map. exact P.
+Qed.
+
+(* the same for EVERY supported pattern (OFFSET / LIMIT anywhere): the rows are an admissible
+   answer in the sense of [answers], read on the result's variables, in the engine's order *)
+Theorem select_query_answers D p vs rows :
+  NoDup D -> run_query L D (QSelect None p) = ARows vs rows ->
+  vs = out_vars L p /\ exists sols, answers L D p None sols /\ rows = map (mu_row vs) sols.
+Proof.
+  intros HD. simpl.
+  destruct (select L (ds_qm D) (ds_names D) p [None] None) as [vs0 rows0|] eqn:E; [|discriminate].
+  intros H; injection H as <- <-. split; [eapply select_vars; eauto|].
+  destruct (select_answers L sorter_perm D HD _ _ _ _ E) as [A _].
+  exists (map bv rows0). split; [exact A|]. unfold rows_of. rewrite map_map. reflexivity.
+Qed.
+Theorem ask_query_answers D p b :
+  NoDup D -> run_query L D (QAsk None p) = ABool b ->
+  exists sols, answers L D p None sols /\ b = match sols with [] => false | _ => true end.
+Proof.
+  intros HD. simpl.
+  destruct (select L (ds_qm D) (ds_names D) p [None] None) as [vs0 rows0|] eqn:E; [|discriminate].
+  intros H; injection H as <-.
+  destruct (select_answers L sorter_perm D HD _ _ _ _ E) as [A _].
+  exists (map bv rows0). split; [exact A|]. destruct rows0; reflexivity.
 Qed.
 
 (* ASK answers whether the algebra has a solution *)
